@@ -219,3 +219,82 @@ Proof.
   - split; [exact Hlh|]. split; [intros x; now apply vid_run_In|].
     intros a [H1 H2]. split; now apply Mono.
 Qed.
+
+(* ------------------------------------------------------------------------------------------------------------------ *)
+(* REVERSE DIRECTION ON DYADIC RANGES: bounds a 2^e < b 2^e with (|a|+|b|) 2^(vz+2) < 2^53: the four operations
+   (max-min, /2^vz, float64(k)*h, +min) are exact, the computed bound is the exact bound of the cell, and the emitted run is the reference run *)
+Lemma cell_alt_dyadic (vz g oz : Z) (mx mn : pfloat) (a b e : Z) :
+  0 <= vz <= 35 -> fin mx -> fin mn -> val mn = (IZR a * bpow radix2 e)%R -> val mx = (IZR b * bpow radix2 e)%R ->
+  Z.abs g <= 2 ^ (vz + 1) + 1 -> (Z.abs a + Z.abs b) * 2 ^ (vz + 2) < 2 ^ 53 -> -900 <= e - vz -> e + 60 <= 1024 ->
+  (IZR (Z.abs a + Z.abs b) * bpow radix2 (e + 2 + (oz - 25)) < bpow radix2 52)%R ->
+  let x := cell_alt g (cell_height vz mx mn) mn in
+  val x = dval (cell_dy g vz (a, e) (b, e)) /\ alt_ok x oz.
+Proof.
+  intros Hv Fx Fn Vn Vx Hg HM He1 He2 Hidx x.
+  assert (P1 : 0 < 2 ^ vz) by (apply Z.pow_pos_nonneg; lia).
+  assert (P2 : 2 ^ (vz + 1) = 2 * 2 ^ vz) by (rewrite Z.pow_add_r by lia; lia).
+  assert (P3 : 2 ^ (vz + 2) = 4 * 2 ^ vz) by (rewrite Z.pow_add_r by lia; lia).
+  assert (P35 : 2 ^ vz <= 2 ^ 35) by (apply Z.pow_le_mono_r; lia).
+  set (P := 2 ^ vz) in *. set (S := Z.abs a + Z.abs b) in *.
+  assert (HS : 0 <= S) by (unfold S; lia).
+  assert (Hba : Z.abs (b - a) <= S) by (unfold S; lia).
+  (* d = mx - mn *)
+  destruct (sub_exact mx mn Fx Fn) as [Vd Fd].
+  { rewrite Vx, Vn, <- Rmult_minus_distr_r, <- minus_IZR. apply fmt_int; [nia|lia]. }
+  { rewrite Vx, Vn, <- Rmult_minus_distr_r, <- minus_IZR. apply abs_int_lt; [nia|]. unfold FloatOps.emax. lia. }
+  rewrite Vx, Vn, <- Rmult_minus_distr_r, <- minus_IZR in Vd.
+  (* h = d / 2^vz *)
+  destruct (pow2f_value vz ltac:(lia)) as [Vp Fp].
+  assert (D : (IZR (b - a) * bpow radix2 e / bpow radix2 vz = IZR (b - a) * bpow radix2 (e - vz))%R).
+  { unfold Rdiv, Zminus. rewrite bpow_plus, bpow_opp. ring. }
+  destruct (div_exact (mx - mn)%float (pow2f vz) Fd) as [Vh Fh].
+  { rewrite Vp. apply Rgt_not_eq, bpow_gt_0. }
+  { rewrite Vd, Vp, D. apply fmt_int; [nia|lia]. }
+  { rewrite Vd, Vp, D. apply abs_int_lt; [nia|]. unfold FloatOps.emax. lia. }
+  rewrite Vd, Vp, D in Vh. fold (cell_height vz mx mn) in Vh, Fh.
+  (* p = float64(g) * h *)
+  destruct (of_Z_exact g ltac:(lia)) as [Vg Fg].
+  assert (Hgb : Z.abs (g * (b - a)) <= (2 * P + 1) * S) by (rewrite Z.abs_mul; nia).
+  destruct (mul_exact (of_Z g) (cell_height vz mx mn) Fg Fh) as [Vm Fm].
+  { rewrite Vg, Vh, <- Rmult_assoc, <- mult_IZR. apply fmt_int; [nia|lia]. }
+  { rewrite Vg, Vh, <- Rmult_assoc, <- mult_IZR. apply abs_int_lt; [nia|]. unfold FloatOps.emax. lia. }
+  rewrite Vg, Vh, <- Rmult_assoc, <- mult_IZR in Vm.
+  (* bound = p + mn *)
+  set (m := a * P + g * (b - a)).
+  assert (Hm : Z.abs m <= 4 * P * S).
+  { unfold m. assert (Z.abs (a * P) <= S * P) by (rewrite Z.abs_mul, (Z.abs_eq P) by lia; unfold S; nia).
+    assert (S <= P * S) by nia. lia. }
+  assert (Sum : (IZR (g * (b - a)) * bpow radix2 (e - vz) + IZR a * bpow radix2 e = IZR m * bpow radix2 (e - vz))%R).
+  { unfold m. rewrite plus_IZR, (mult_IZR a P). unfold P. rewrite IZR_pow2' by lia.
+    replace (bpow radix2 e) with (bpow radix2 vz * bpow radix2 (e - vz))%R by (rewrite <- bpow_plus; f_equal; lia). ring. }
+  destruct (add_exact (of_Z g * cell_height vz mx mn)%float mn Fm Fn) as [Vs Fs].
+  { rewrite Vm, Vn, Sum. apply fmt_int; [nia|lia]. }
+  { rewrite Vm, Vn, Sum. apply abs_int_lt; [nia|]. unfold FloatOps.emax. lia. }
+  rewrite Vm, Vn, Sum in Vs. fold (cell_alt g (cell_height vz mx mn) mn) in Vs, Fs. fold x in Vs, Fs.
+  assert (Ec : dval (cell_dy g vz (a, e) (b, e)) = (IZR m * bpow radix2 (e - vz))%R).
+  { unfold cell_dy, dval, dnum. cbn [fst snd]. rewrite Z.min_id, Z.sub_diag. change (2 ^ 0) with 1. rewrite !Z.mul_1_r. reflexivity. }
+  split; [now rewrite Ec|]. unfold alt_ok. split; [exact Fs|]. rewrite Vs. split.
+  - destruct (Z.eq_dec m 0) as [->|Hne]; [left; now rewrite Rmult_0_l|]. right.
+    rewrite Rabs_mult, (Rabs_pos_eq (bpow radix2 (e - vz))) by apply bpow_ge_0.
+    apply Rle_trans with (1 * bpow radix2 (e - vz))%R.
+    + rewrite Rmult_1_l. apply bpow_le. lia.
+    + apply Rmult_le_compat_r; [apply bpow_ge_0|]. rewrite <- abs_IZR. apply IZR_le. lia.
+  - rewrite Rmult_assoc, <- bpow_plus, Rabs_mult, (Rabs_pos_eq (bpow radix2 _)) by apply bpow_ge_0.
+    eapply Rle_lt_trans; [|exact Hidx].
+    replace (e + 2 + (oz - 25)) with ((vz + 2) + (e - vz + (oz - 25))) by lia. rewrite (bpow_plus radix2 (vz + 2)), <- Rmult_assoc.
+    apply Rmult_le_compat_r; [apply bpow_ge_0|]. rewrite <- abs_IZR, <- IZR_pow2', <- mult_IZR by lia. apply IZR_le. fold S. lia.
+Qed.
+
+Theorem bit_to_vid_dyadic_exact (vz k oz : Z) (mx mn : pfloat) (a b e : Z) :
+  0 <= vz <= 35 -> 0 <= oz <= 35 -> fin mx -> fin mn -> val mn = (IZR a * bpow radix2 e)%R -> val mx = (IZR b * bpow radix2 e)%R ->
+  Z.abs k <= 2 ^ (vz + 1) -> (Z.abs a + Z.abs b) * 2 ^ (vz + 2) < 2 ^ 53 -> -900 <= e - vz -> e + 60 <= 1024 ->
+  (IZR (Z.abs a + Z.abs b) * bpow radix2 (e + 2 + (oz - 25)) < bpow radix2 52)%R ->
+  let '(lo, hi) := rev_ref vz k oz (a, e) (b, e) in
+  bit_to_vid vz k oz mx mn = Some (map (vstr oz) (vid_run hi lo)).
+Proof.
+  intros Hv Hz Fx Fn Vn Vx Hk HM He1 He2 Hidx. unfold rev_ref.
+  destruct (cell_alt_dyadic vz k oz mx mn a b e Hv Fx Fn Vn Vx ltac:(lia) HM He1 He2 Hidx) as [V0 Ok0].
+  destruct (cell_alt_dyadic vz (k + 1) oz mx mn a b e Hv Fx Fn Vn Vx ltac:(lia) HM He1 He2 Hidx) as [V1 Ok1].
+  unfold bit_to_vid, bit_to_vid_idx. rewrite (f_f_exact _ oz Hz Ok1), (f_f_exact _ oz Hz Ok0).
+  rewrite V0, V1, <- !vidx_ref_real. reflexivity.
+Qed.
